@@ -10,24 +10,24 @@ calls `block_for_gc`, and one with `allow_overcommit` may exceed the heap size w
 The statements are about `Mmtk.OOM.slowPath` (the retry loop of `Allocator::alloc_slow_inline` on
 this tree, `Model/OOM.lean`) for **every** request, **every** environment (answers of `poll`, of the
 page resource, of the global `emergency_collection` / `allocation_success` atomics, per iteration)
-and **every** fuel, and about `slowPathFixed` (the minimally repaired loop).
+and **every** fuel. `slowPathOld` is the loop of the pinned tree, before the two `fix:` commits in
+/repo (emergency branch ignored `allow_oom_call`; an obviously-too-large request with
+`allow_oom_call = false` looped forever): the theorems about it record why the repairs were needed.
 
-Status on this tree:
-
-| clause | `slowPath` (this tree) | `slowPathFixed` |
+| clause | `slowPath` (this tree) | `slowPathOld` (pinned tree) |
 |---|---|---|
-| `oom_only_after_gc_or_obvious`  | proved in full | proved in full |
-| `no_oom_call_when_disallowed`   | **false** (`F5_witness`), `…_partial` proved | proved in full |
-| `oom_returns_null`              | proved in full | proved in full |
-| `obvious_fails_immediately`     | **false** (`F6_witness_diverges`), `…_partial` proved | proved in full |
-| `no_block_when_not_safepoint`   | proved in full | proved in full |
-| `overcommit_gets_pages`         | proved in full | proved in full |
-| termination                     | false (F6) | `fixed_terminates` under the GC-progress hypothesis |
+| `oom_only_after_gc_or_obvious`  | proved in full | proved in full (`old_…`) |
+| `no_oom_call_when_disallowed`   | proved in full | **false** (`F5_witness`), `old_…_partial` proved |
+| `oom_returns_null`              | proved in full | proved in full (`old_…`) |
+| `obvious_fails_immediately`     | proved in full | **false** (`F6_witness_diverges`), `old_…_partial` proved |
+| `no_block_when_not_safepoint`, `not_safepoint_one_attempt` | proved in full | proved in full (`old_…`) |
+| `overcommit_gets_pages`         | proved in full | proved in full (`old_…`) |
+| termination                     | `terminates` under the GC-progress hypothesis, `terminates_obvious` | false (F6) |
 -/
 namespace Mmtk.OOM
 open Event
 
-/-! ## Facts about `alloc_slow_once` (`allocOnce`, `allocOnceFixed`) -/
+/-! ## Facts about `alloc_slow_once` (`allocOnceOld`, `allocOnce`) -/
 
 theorem notAcquiring_no_oom (o : Opts) (b : Bool) : oomCall ∉ notAcquiring o b := by
   unfold notAcquiring; cases o.atSafepoint <;> cases b <;> simp
@@ -53,93 +53,143 @@ theorem acquire_overcommit (o : Opts) (e : EnvRec) (h : o.allowOvercommit = true
   unfold acquire
   cases e.pollGc <;> simp [h, hp]
 
-theorem allocOnce_of_not_obvious (r : Req) (e : EnvRec) (h : r.obvious = false) :
-    allocOnce r e = if e.localHit then (true, false, [])
+theorem allocOnceOld_of_not_obvious (r : Req) (e : EnvRec) (h : r.obvious = false) :
+    allocOnceOld r e = if e.localHit then (true, false, [])
       else ((acquire r.opts e).1, false, (acquire r.opts e).2) := by
-  unfold allocOnce; simp [h]
+  unfold allocOnceOld; simp [h]
 
-theorem allocOnceFixed_of_not_obvious (r : Req) (e : EnvRec) (h : r.obvious = false) :
-    allocOnceFixed r e = allocOnce r e := by
-  unfold allocOnceFixed allocOnce; simp [h]
+theorem allocOnce_of_not_obvious (r : Req) (e : EnvRec) (h : r.obvious = false) :
+    allocOnce r e = allocOnceOld r e := by
+  unfold allocOnce allocOnceOld; simp [h]
+
+theorem allocOnceOld_of_obvious (r : Req) (e : EnvRec) (h : r.obvious = true) :
+    allocOnceOld r e = (false, r.opts.allowOomCall, if r.opts.allowOomCall then [oomCall] else []) := by
+  unfold allocOnceOld; cases hc : r.opts.allowOomCall <;> simp [h]
 
 theorem allocOnce_of_obvious (r : Req) (e : EnvRec) (h : r.obvious = true) :
-    allocOnce r e = (false, r.opts.allowOomCall, if r.opts.allowOomCall then [oomCall] else []) := by
-  unfold allocOnce; cases hc : r.opts.allowOomCall <;> simp [h]
-
-theorem allocOnceFixed_of_obvious (r : Req) (e : EnvRec) (h : r.obvious = true) :
-    allocOnceFixed r e = (false, true, if r.opts.allowOomCall then [oomCall] else []) := by
-  unfold allocOnceFixed; simp [h]
+    allocOnce r e = (false, true, if r.opts.allowOomCall then [oomCall] else []) := by
+  unfold allocOnce; simp [h]
 
 /-- Not obviously too large: `alloc_slow_once` neither calls `out_of_memory` nor sets
 `thrown_oom`, and at a safepoint it fails only after `block_for_gc`. -/
-theorem allocOnce_nonobvious (r : Req) (e : EnvRec) (h : r.obvious = false) :
-    (allocOnce r e).2.1 = false ∧ oomCall ∉ (allocOnce r e).2.2 ∧
-    (r.opts.atSafepoint = true → (allocOnce r e).1 = false → blockForGc ∈ (allocOnce r e).2.2) := by
-  rw [allocOnce_of_not_obvious r e h]
+theorem allocOnceOld_nonobvious (r : Req) (e : EnvRec) (h : r.obvious = false) :
+    (allocOnceOld r e).2.1 = false ∧ oomCall ∉ (allocOnceOld r e).2.2 ∧
+    (r.opts.atSafepoint = true → (allocOnceOld r e).1 = false → blockForGc ∈ (allocOnceOld r e).2.2) := by
+  rw [allocOnceOld_of_not_obvious r e h]
   cases e.localHit
   · simp only [Bool.false_eq_true, if_false]
     exact ⟨trivial, acquire_no_oom _ _, acquire_null_block _ _⟩
   · simp
 
-theorem allocOnce_noblock (r : Req) (e : EnvRec) (h : r.opts.atSafepoint = false) :
-    blockForGc ∉ (allocOnce r e).2.2 := by
+theorem allocOnceOld_noblock (r : Req) (e : EnvRec) (h : r.opts.atSafepoint = false) :
+    blockForGc ∉ (allocOnceOld r e).2.2 := by
   cases ho : r.obvious
-  · rw [allocOnce_of_not_obvious r e ho]
+  · rw [allocOnceOld_of_not_obvious r e ho]
     cases e.localHit
     · simpa using acquire_noblock _ e h
     · simp
+  · rw [allocOnceOld_of_obvious r e ho]; cases r.opts.allowOomCall <;> simp
+
+theorem allocOnce_noblock (r : Req) (e : EnvRec) (h : r.opts.atSafepoint = false) :
+    blockForGc ∉ (allocOnce r e).2.2 := by
+  cases ho : r.obvious
+  · rw [allocOnce_of_not_obvious r e ho]; exact allocOnceOld_noblock r e h
   · rw [allocOnce_of_obvious r e ho]; cases r.opts.allowOomCall <;> simp
 
-theorem allocOnceFixed_noblock (r : Req) (e : EnvRec) (h : r.opts.atSafepoint = false) :
-    blockForGc ∉ (allocOnceFixed r e).2.2 := by
+theorem allocOnceOld_disallowed (r : Req) (e : EnvRec) (h : r.opts.allowOomCall = false) :
+    oomCall ∉ (allocOnceOld r e).2.2 := by
   cases ho : r.obvious
-  · rw [allocOnceFixed_of_not_obvious r e ho]; exact allocOnce_noblock r e h
-  · rw [allocOnceFixed_of_obvious r e ho]; cases r.opts.allowOomCall <;> simp
+  · exact (allocOnceOld_nonobvious r e ho).2.1
+  · rw [allocOnceOld_of_obvious r e ho]; simp [h]
 
 theorem allocOnce_disallowed (r : Req) (e : EnvRec) (h : r.opts.allowOomCall = false) :
     oomCall ∉ (allocOnce r e).2.2 := by
   cases ho : r.obvious
-  · exact (allocOnce_nonobvious r e ho).2.1
+  · rw [allocOnce_of_not_obvious r e ho]; exact (allocOnceOld_nonobvious r e ho).2.1
   · rw [allocOnce_of_obvious r e ho]; simp [h]
 
-theorem allocOnceFixed_disallowed (r : Req) (e : EnvRec) (h : r.opts.allowOomCall = false) :
-    oomCall ∉ (allocOnceFixed r e).2.2 := by
-  cases ho : r.obvious
-  · rw [allocOnceFixed_of_not_obvious r e ho]; exact (allocOnce_nonobvious r e ho).2.1
-  · rw [allocOnceFixed_of_obvious r e ho]; simp [h]
-
 /-- `out_of_memory` inside `alloc_slow_once` always comes with `thrown_oom` and a zero result. -/
+theorem allocOnceOld_oom_thrown (r : Req) (e : EnvRec) (h : oomCall ∈ (allocOnceOld r e).2.2) :
+    (allocOnceOld r e).1 = false ∧ (allocOnceOld r e).2.1 = true := by
+  cases ho : r.obvious
+  · exact absurd h (allocOnceOld_nonobvious r e ho).2.1
+  · rw [allocOnceOld_of_obvious r e ho] at h ⊢
+    cases hc : r.opts.allowOomCall <;> simp [hc] at h ⊢
+
 theorem allocOnce_oom_thrown (r : Req) (e : EnvRec) (h : oomCall ∈ (allocOnce r e).2.2) :
     (allocOnce r e).1 = false ∧ (allocOnce r e).2.1 = true := by
   cases ho : r.obvious
-  · exact absurd h (allocOnce_nonobvious r e ho).2.1
-  · rw [allocOnce_of_obvious r e ho] at h ⊢
-    cases hc : r.opts.allowOomCall <;> simp [hc] at h ⊢
+  · rw [allocOnce_of_not_obvious r e ho] at h
+    exact absurd h (allocOnceOld_nonobvious r e ho).2.1
+  · rw [allocOnce_of_obvious r e ho]; simp
 
-theorem allocOnceFixed_oom_thrown (r : Req) (e : EnvRec) (h : oomCall ∈ (allocOnceFixed r e).2.2) :
-    (allocOnceFixed r e).1 = false ∧ (allocOnceFixed r e).2.1 = true := by
-  cases ho : r.obvious
-  · rw [allocOnceFixed_of_not_obvious r e ho] at h
-    exact absurd h (allocOnce_nonobvious r e ho).2.1
-  · rw [allocOnceFixed_of_obvious r e ho]; simp
-
-theorem allocOnce_overcommit (r : Req) (e : EnvRec) (ho : r.obvious = false)
+theorem allocOnceOld_overcommit (r : Req) (e : EnvRec) (ho : r.obvious = false)
     (hc : r.opts.allowOvercommit = true) (hp : e.pagesOk = true) :
-    (allocOnce r e).1 = true ∧ blockForGc ∉ (allocOnce r e).2.2 := by
-  rw [allocOnce_of_not_obvious r e ho]
+    (allocOnceOld r e).1 = true ∧ blockForGc ∉ (allocOnceOld r e).2.2 := by
+  rw [allocOnceOld_of_not_obvious r e ho]
   cases e.localHit
   · simpa using acquire_overcommit r.opts e hc hp
   · simp
 
 /-! ## Inversion of one loop iteration -/
 
-/-- How an iteration of the loop on this tree can return. -/
+/-- How an iteration of the loop of the pinned tree can return. -/
+theorem loopBodyOld_ret {r : Req} {e : EnvRec} {s : State} {a : Bool × Bool × List Event}
+    {res : Res} {tr : List Event} (h : loopBodyOld r e s a = .ret res tr) :
+    (a.1 = true ∧ res = .addr ∧ tr = s.trace ++ a.2.2) ∨
+    (a.1 = false ∧ res = .null ∧ tr = s.trace ++ a.2.2 ∧
+      (r.opts.atSafepoint = false ∨ s.thrownOom = true ∨ a.2.1 = true)) ∨
+    (a.1 = false ∧ res = .null ∧ tr = s.trace ++ a.2.2 ++ [oomCall] ∧
+      r.opts.atSafepoint = true ∧ s.thrownOom = false ∧ a.2.1 = false ∧
+      s.emergLocal = true ∧ e.emergCheck = true ∧ e.succSeen = false) := by
+  unfold loopBodyOld at h
+  split at h
+  · rename_i h1; cases h; exact .inl ⟨h1, rfl, rfl⟩
+  · rename_i h1
+    split at h
+    · rename_i h2; cases h
+      exact .inr (.inl ⟨by simpa using h1, rfl, rfl, .inl (by simpa using h2)⟩)
+    · rename_i h2
+      split at h
+      · rename_i h3; cases h
+        refine .inr (.inl ⟨by simpa using h1, rfl, rfl, .inr ?_⟩)
+        simpa using h3
+      · rename_i h3
+        split at h
+        · rename_i h4; cases h
+          simp at h1 h2 h3 h4
+          exact .inr (.inr ⟨h1, rfl, rfl, h2, h3.1, h3.2, h4.1.1, h4.1.2, h4.2⟩)
+        · cases h
+
+/-- How an iteration of the loop of the pinned tree can go round again. -/
+theorem loopBodyOld_cont {r : Req} {e : EnvRec} {s s' : State} {a : Bool × Bool × List Event}
+    (h : loopBodyOld r e s a = .cont s') :
+    a.1 = false ∧ r.opts.atSafepoint = true ∧ s.thrownOom = false ∧ a.2.1 = false ∧
+    ¬(s.emergLocal = true ∧ e.emergCheck = true ∧ e.succSeen = false) ∧
+    s' = { thrownOom := false, emergLocal := e.emergRecord, trace := s.trace ++ a.2.2 } := by
+  unfold loopBodyOld at h
+  split at h
+  · cases h
+  · rename_i h1
+    split at h
+    · cases h
+    · rename_i h2
+      split at h
+      · cases h
+      · rename_i h3
+        split at h
+        · cases h
+        · rename_i h4; cases h
+          simp at h1 h2 h3 h4
+          exact ⟨h1, h2, h3.1, h3.2, by simpa using h4, rfl⟩
+
 theorem loopBody_ret {r : Req} {e : EnvRec} {s : State} {a : Bool × Bool × List Event}
     {res : Res} {tr : List Event} (h : loopBody r e s a = .ret res tr) :
     (a.1 = true ∧ res = .addr ∧ tr = s.trace ++ a.2.2) ∨
     (a.1 = false ∧ res = .null ∧ tr = s.trace ++ a.2.2 ∧
       (r.opts.atSafepoint = false ∨ s.thrownOom = true ∨ a.2.1 = true)) ∨
-    (a.1 = false ∧ res = .null ∧ tr = s.trace ++ a.2.2 ++ [oomCall] ∧
+    (a.1 = false ∧ res = .null ∧
+      tr = s.trace ++ a.2.2 ++ (if r.opts.allowOomCall then [oomCall] else []) ∧
       r.opts.atSafepoint = true ∧ s.thrownOom = false ∧ a.2.1 = false ∧
       s.emergLocal = true ∧ e.emergCheck = true ∧ e.succSeen = false) := by
   unfold loopBody at h
@@ -161,7 +211,6 @@ theorem loopBody_ret {r : Req} {e : EnvRec} {s : State} {a : Bool × Bool × Lis
           exact .inr (.inr ⟨h1, rfl, rfl, h2, h3.1, h3.2, h4.1.1, h4.1.2, h4.2⟩)
         · cases h
 
-/-- How an iteration of the loop on this tree can go round again. -/
 theorem loopBody_cont {r : Req} {e : EnvRec} {s s' : State} {a : Bool × Bool × List Event}
     (h : loopBody r e s a = .cont s') :
     a.1 = false ∧ r.opts.atSafepoint = true ∧ s.thrownOom = false ∧ a.2.1 = false ∧
@@ -183,59 +232,25 @@ theorem loopBody_cont {r : Req} {e : EnvRec} {s s' : State} {a : Bool × Bool ×
           simp at h1 h2 h3 h4
           exact ⟨h1, h2, h3.1, h3.2, by simpa using h4, rfl⟩
 
-theorem loopBodyFixed_ret {r : Req} {e : EnvRec} {s : State} {a : Bool × Bool × List Event}
-    {res : Res} {tr : List Event} (h : loopBodyFixed r e s a = .ret res tr) :
-    (a.1 = true ∧ res = .addr ∧ tr = s.trace ++ a.2.2) ∨
-    (a.1 = false ∧ res = .null ∧ tr = s.trace ++ a.2.2 ∧
-      (r.opts.atSafepoint = false ∨ s.thrownOom = true ∨ a.2.1 = true)) ∨
-    (a.1 = false ∧ res = .null ∧
-      tr = s.trace ++ a.2.2 ++ (if r.opts.allowOomCall then [oomCall] else []) ∧
-      r.opts.atSafepoint = true ∧ s.thrownOom = false ∧ a.2.1 = false ∧
-      s.emergLocal = true ∧ e.emergCheck = true ∧ e.succSeen = false) := by
-  unfold loopBodyFixed at h
-  split at h
-  · rename_i h1; cases h; exact .inl ⟨h1, rfl, rfl⟩
-  · rename_i h1
-    split at h
-    · rename_i h2; cases h
-      exact .inr (.inl ⟨by simpa using h1, rfl, rfl, .inl (by simpa using h2)⟩)
-    · rename_i h2
-      split at h
-      · rename_i h3; cases h
-        refine .inr (.inl ⟨by simpa using h1, rfl, rfl, .inr ?_⟩)
-        simpa using h3
-      · rename_i h3
-        split at h
-        · rename_i h4; cases h
-          simp at h1 h2 h3 h4
-          exact .inr (.inr ⟨h1, rfl, rfl, h2, h3.1, h3.2, h4.1.1, h4.1.2, h4.2⟩)
-        · cases h
-
-theorem loopBodyFixed_cont {r : Req} {e : EnvRec} {s s' : State} {a : Bool × Bool × List Event}
-    (h : loopBodyFixed r e s a = .cont s') :
-    a.1 = false ∧ r.opts.atSafepoint = true ∧ s.thrownOom = false ∧ a.2.1 = false ∧
-    ¬(s.emergLocal = true ∧ e.emergCheck = true ∧ e.succSeen = false) ∧
-    s' = { thrownOom := false, emergLocal := e.emergRecord, trace := s.trace ++ a.2.2 } := by
-  unfold loopBodyFixed at h
-  split at h
-  · cases h
-  · rename_i h1
-    split at h
-    · cases h
-    · rename_i h2
-      split at h
-      · cases h
-      · rename_i h3
-        split at h
-        · cases h
-        · rename_i h4; cases h
-          simp at h1 h2 h3 h4
-          exact ⟨h1, h2, h3.1, h3.2, by simpa using h4, rfl⟩
-
 /-! ## Induction over the loop -/
 
-/-- Invariant rule for `run`: `EP` constrains the environment answers, `Inv` the loop-carried state,
+/-- Invariant rule for `runOld`: `EP` constrains the environment answers, `Inv` the loop-carried state,
 `Post` is established for every outcome (including out-of-fuel prefixes). -/
+theorem runOld_induct (r : Req) (EP : EnvRec → Prop) (Inv : State → Prop) (Post : Outcome → Prop)
+    (hfuel : ∀ s, Inv s → Post (.outOfFuel s.trace))
+    (hret : ∀ e s res tr, EP e → Inv s → iterOld r e s = .ret res tr → Post (.done res tr))
+    (hcont : ∀ e s s', EP e → Inv s → iterOld r e s = .cont s' → Inv s') :
+    ∀ fuel (env : Env) s, (∀ n, EP (env n)) → Inv s → Post (runOld r fuel env s) := by
+  intro fuel
+  induction fuel with
+  | zero => intro env s _ hi; exact hfuel s hi
+  | succ n ih =>
+    intro env s he hi
+    unfold runOld
+    cases hs : iterOld r (env 0) s with
+    | ret res tr => exact hret _ _ _ _ (he 0) hi hs
+    | cont s' => exact ih env.tail s' (fun n => he (n + 1)) (hcont _ _ _ (he 0) hi hs)
+
 theorem run_induct (r : Req) (EP : EnvRec → Prop) (Inv : State → Prop) (Post : Outcome → Prop)
     (hfuel : ∀ s, Inv s → Post (.outOfFuel s.trace))
     (hret : ∀ e s res tr, EP e → Inv s → iter r e s = .ret res tr → Post (.done res tr))
@@ -248,21 +263,6 @@ theorem run_induct (r : Req) (EP : EnvRec → Prop) (Inv : State → Prop) (Post
     intro env s he hi
     unfold run
     cases hs : iter r (env 0) s with
-    | ret res tr => exact hret _ _ _ _ (he 0) hi hs
-    | cont s' => exact ih env.tail s' (fun n => he (n + 1)) (hcont _ _ _ (he 0) hi hs)
-
-theorem runFixed_induct (r : Req) (EP : EnvRec → Prop) (Inv : State → Prop) (Post : Outcome → Prop)
-    (hfuel : ∀ s, Inv s → Post (.outOfFuel s.trace))
-    (hret : ∀ e s res tr, EP e → Inv s → iterFixed r e s = .ret res tr → Post (.done res tr))
-    (hcont : ∀ e s s', EP e → Inv s → iterFixed r e s = .cont s' → Inv s') :
-    ∀ fuel (env : Env) s, (∀ n, EP (env n)) → Inv s → Post (runFixed r fuel env s) := by
-  intro fuel
-  induction fuel with
-  | zero => intro env s _ hi; exact hfuel s hi
-  | succ n ih =>
-    intro env s he hi
-    unfold runFixed
-    cases hs : iterFixed r (env 0) s with
     | ret res tr => exact hret _ _ _ _ (he 0) hi hs
     | cont s' => exact ih env.tail s' (fun n => he (n + 1)) (hcont _ _ _ (he 0) hi hs)
 
@@ -279,35 +279,35 @@ def Inv1 (s : State) : Prop := oomCall ∉ s.trace ∧ (s.emergLocal = true → 
 /-- **Clause 1 (full).** A request that is not obviously too large calls `out_of_memory` only
 after this very request blocked for a collection; the call is the last event of the request and
 happens at most once. Holds for every environment and every prefix of the execution. -/
-theorem oom_only_after_gc_or_obvious (r : Req) (fuel : Nat) (env : Env) (h : r.obvious = false) :
-    OomAfterGc (slowPath r fuel env).trace := by
-  refine run_induct r (fun _ => True) Inv1 (fun o => OomAfterGc o.trace) ?_ ?_ ?_ fuel env State.init
+theorem old_oom_only_after_gc_or_obvious (r : Req) (fuel : Nat) (env : Env) (h : r.obvious = false) :
+    OomAfterGc (slowPathOld r fuel env).trace := by
+  refine runOld_induct r (fun _ => True) Inv1 (fun o => OomAfterGc o.trace) ?_ ?_ ?_ fuel env State.init
     (fun _ => trivial) ⟨by simp [State.init], by simp [State.init]⟩
   · intro s hi hm; exact absurd hm hi.1
   · intro e s res tr _ hi hs hm
-    obtain ⟨ht, hno, hb⟩ := allocOnce_nonobvious r e h
-    rcases loopBody_ret hs with ⟨_, _, rfl⟩ | ⟨_, _, rfl, _⟩ | ⟨ha, _, rfl, hsp, _, _, hl, _, _⟩
+    obtain ⟨ht, hno, hb⟩ := allocOnceOld_nonobvious r e h
+    rcases loopBodyOld_ret hs with ⟨_, _, rfl⟩ | ⟨_, _, rfl, _⟩ | ⟨ha, _, rfl, hsp, _, _, hl, _, _⟩
     · simp only [Outcome.trace, List.mem_append] at hm
       exact absurd hm (by simp [hi.1, hno])
     · simp only [Outcome.trace, List.mem_append] at hm
       exact absurd hm (by simp [hi.1, hno])
-    · refine ⟨s.trace ++ (allocOnce r e).2.2, rfl, by simp [hi.1, hno], ?_⟩
+    · refine ⟨s.trace ++ (allocOnceOld r e).2.2, rfl, by simp [hi.1, hno], ?_⟩
       simp [hi.2 hl]
   · intro e s s' _ hi hs
-    obtain ⟨ht, hno, hb⟩ := allocOnce_nonobvious r e h
-    obtain ⟨ha, hsp, _, _, _, rfl⟩ := loopBody_cont hs
+    obtain ⟨ht, hno, hb⟩ := allocOnceOld_nonobvious r e h
+    obtain ⟨ha, hsp, _, _, _, rfl⟩ := loopBodyOld_cont hs
     exact ⟨by simp [hi.1, hno], fun _ => by simp [hb hsp ha]⟩
 
-/-- **Clause 1, repaired loop (full).** -/
-theorem fixed_oom_only_after_gc_or_obvious (r : Req) (fuel : Nat) (env : Env) (h : r.obvious = false) :
-    OomAfterGc (slowPathFixed r fuel env).trace := by
-  refine runFixed_induct r (fun _ => True) Inv1 (fun o => OomAfterGc o.trace) ?_ ?_ ?_ fuel env
+/-- **Clause 1, this tree (full).** -/
+theorem oom_only_after_gc_or_obvious (r : Req) (fuel : Nat) (env : Env) (h : r.obvious = false) :
+    OomAfterGc (slowPath r fuel env).trace := by
+  refine run_induct r (fun _ => True) Inv1 (fun o => OomAfterGc o.trace) ?_ ?_ ?_ fuel env
     State.init (fun _ => trivial) ⟨by simp [State.init], by simp [State.init]⟩
   · intro s hi hm; exact absurd hm hi.1
   · intro e s res tr _ hi hs hm
-    obtain ⟨ht, hno, hb⟩ := allocOnce_nonobvious r e h
-    unfold iterFixed at hs; rw [allocOnceFixed_of_not_obvious r e h] at hs
-    rcases loopBodyFixed_ret hs with ⟨_, _, rfl⟩ | ⟨_, _, rfl, _⟩ | ⟨ha, _, rfl, hsp, _, _, hl, _, _⟩
+    obtain ⟨ht, hno, hb⟩ := allocOnceOld_nonobvious r e h
+    unfold iter at hs; rw [allocOnce_of_not_obvious r e h] at hs
+    rcases loopBody_ret hs with ⟨_, _, rfl⟩ | ⟨_, _, rfl, _⟩ | ⟨ha, _, rfl, hsp, _, _, hl, _, _⟩
     · simp only [Outcome.trace, List.mem_append] at hm
       exact absurd hm (by simp [hi.1, hno])
     · simp only [Outcome.trace, List.mem_append] at hm
@@ -315,18 +315,41 @@ theorem fixed_oom_only_after_gc_or_obvious (r : Req) (fuel : Nat) (env : Env) (h
     · cases hc : r.opts.allowOomCall
       · simp [Outcome.trace, hi.1, hno] at hm
         simp [hc] at hm
-      · refine ⟨s.trace ++ (allocOnce r e).2.2, by simp [Outcome.trace], by simp [hi.1, hno], ?_⟩
+      · refine ⟨s.trace ++ (allocOnceOld r e).2.2, by simp [Outcome.trace], by simp [hi.1, hno], ?_⟩
         simp [hi.2 hl]
   · intro e s s' _ hi hs
-    obtain ⟨ht, hno, hb⟩ := allocOnce_nonobvious r e h
-    unfold iterFixed at hs; rw [allocOnceFixed_of_not_obvious r e h] at hs
-    obtain ⟨ha, hsp, _, _, _, rfl⟩ := loopBodyFixed_cont hs
+    obtain ⟨ht, hno, hb⟩ := allocOnceOld_nonobvious r e h
+    unfold iter at hs; rw [allocOnce_of_not_obvious r e h] at hs
+    obtain ⟨ha, hsp, _, _, _, rfl⟩ := loopBody_cont hs
     exact ⟨by simp [hi.1, hno], fun _ => by simp [hb hsp ha]⟩
 
 /-! ## Clause 3 — after `out_of_memory` the request returns null -/
 
 /-- **Clause 3 (full).** If `out_of_memory` was called for the request, the request returns null
-(and `out_of_memory` was its last action: see also `oom_only_after_gc_or_obvious`). -/
+(and `out_of_memory` was its last action: see also `old_oom_only_after_gc_or_obvious`). -/
+theorem old_oom_returns_null (r : Req) (fuel : Nat) (env : Env) (res : Res) (tr : List Event)
+    (h : slowPathOld r fuel env = .done res tr) (hm : oomCall ∈ tr) : res = .null := by
+  have := runOld_induct r (fun _ => True) (fun s => oomCall ∉ s.trace)
+    (fun o => ∀ res tr, o = .done res tr → oomCall ∈ tr → res = .null) ?_ ?_ ?_ fuel env State.init
+    (fun _ => trivial) (by simp [State.init])
+  · exact this res tr h hm
+  · intro s _ res tr h; cases h
+  · intro e s res tr _ hi hs res' tr' heq hm
+    cases heq
+    rcases loopBodyOld_ret hs with ⟨ha, _, rfl⟩ | ⟨_, rfl, _⟩ | ⟨_, rfl, _⟩
+    · have : oomCall ∈ (allocOnceOld r e).2.2 := by simpa [hi] using hm
+      have := (allocOnceOld_oom_thrown r e this).1
+      simp [ha] at this
+    · rfl
+    · rfl
+  · intro e s s' _ hi hs
+    obtain ⟨_, _, _, ht, _, rfl⟩ := loopBodyOld_cont hs
+    intro hm
+    have : oomCall ∈ (allocOnceOld r e).2.2 := by simpa [hi] using hm
+    have := (allocOnceOld_oom_thrown r e this).2
+    simp [ht] at this
+
+/-- **Clause 3, this tree (full).** -/
 theorem oom_returns_null (r : Req) (fuel : Nat) (env : Env) (res : Res) (tr : List Event)
     (h : slowPath r fuel env = .done res tr) (hm : oomCall ∈ tr) : res = .null := by
   have := run_induct r (fun _ => True) (fun s => oomCall ∉ s.trace)
@@ -349,33 +372,10 @@ theorem oom_returns_null (r : Req) (fuel : Nat) (env : Env) (res : Res) (tr : Li
     have := (allocOnce_oom_thrown r e this).2
     simp [ht] at this
 
-/-- **Clause 3, repaired loop (full).** -/
-theorem fixed_oom_returns_null (r : Req) (fuel : Nat) (env : Env) (res : Res) (tr : List Event)
-    (h : slowPathFixed r fuel env = .done res tr) (hm : oomCall ∈ tr) : res = .null := by
-  have := runFixed_induct r (fun _ => True) (fun s => oomCall ∉ s.trace)
-    (fun o => ∀ res tr, o = .done res tr → oomCall ∈ tr → res = .null) ?_ ?_ ?_ fuel env State.init
-    (fun _ => trivial) (by simp [State.init])
-  · exact this res tr h hm
-  · intro s _ res tr h; cases h
-  · intro e s res tr _ hi hs res' tr' heq hm
-    cases heq
-    rcases loopBodyFixed_ret hs with ⟨ha, _, rfl⟩ | ⟨_, rfl, _⟩ | ⟨_, rfl, _⟩
-    · have : oomCall ∈ (allocOnceFixed r e).2.2 := by simpa [hi] using hm
-      have := (allocOnceFixed_oom_thrown r e this).1
-      simp [ha] at this
-    · rfl
-    · rfl
-  · intro e s s' _ hi hs
-    obtain ⟨_, _, _, ht, _, rfl⟩ := loopBodyFixed_cont hs
-    intro hm
-    have : oomCall ∈ (allocOnceFixed r e).2.2 := by simpa [hi] using hm
-    have := (allocOnceFixed_oom_thrown r e this).2
-    simp [ht] at this
-
 /-! ## Clause 2 — never `out_of_memory` when `allow_oom_call = false`
 
-Full statement (FALSE on this tree, see `F5_witness`):
-`∀ r fuel env, r.opts.allowOomCall = false → oomCall ∉ (slowPath r fuel env).trace`. -/
+Full statement (FALSE on the pinned tree, see `F5_witness`):
+`∀ r fuel env, r.opts.allowOomCall = false → oomCall ∉ (slowPathOld r fuel env).trace`. -/
 
 /-- The environment of the F5 witness: the heap is full of live data, every `poll` asks for a GC,
 and from the second GC on the collection is an emergency collection that frees nothing. -/
@@ -383,101 +383,101 @@ def envF5 : Env := fun _ =>
   { localHit := false, pollGc := true, pagesOk := false, emergCheck := true, succSeen := false,
     emergRecord := true }
 
-/-- **F5 is real on this tree.** `allow_oom_call = false` (at a safepoint, not obviously too
+/-- **F5 was real on the pinned tree.** `allow_oom_call = false` (at a safepoint, not obviously too
 large), and the loop calls `Collection::out_of_memory` in its second iteration
 (allocator.rs, emergency branch: `self.out_of_memory(tls)` is not guarded by the option). -/
 def reqF5 : Req :=
   { opts := { allowOvercommit := false, atSafepoint := true, allowOomCall := false }, obvious := false }
 
 theorem F5_witness :
-    slowPath reqF5 2 envF5
+    slowPathOld reqF5 2 envF5
       = .done .null [gcRequested, blockForGc, gcRequested, blockForGc, oomCall] := by decide
 
 /-- The negation of the full clause 2, as a statement. -/
-theorem no_oom_call_when_disallowed_FAILS :
+theorem old_no_oom_call_when_disallowed_FAILS :
     ¬ (∀ (r : Req) (fuel : Nat) (env : Env), r.opts.allowOomCall = false →
-        oomCall ∉ (slowPath r fuel env).trace) := by
+        oomCall ∉ (slowPathOld r fuel env).trace) := by
   intro h
   have := h reqF5 2 envF5 rfl
   rw [F5_witness] at this
   simp [Outcome.trace] at this
 
-/-- **Clause 2 (partial).** True part on this tree; extra hypothesis: the emergency branch never
+/-- **Clause 2 (partial).** True part on the pinned tree; extra hypothesis: the emergency branch never
 sees "emergency collection and no allocation success" (`fail_with_oom` is never true). -/
-theorem no_oom_call_when_disallowed_partial (r : Req) (fuel : Nat) (env : Env)
+theorem old_no_oom_call_when_disallowed_partial (r : Req) (fuel : Nat) (env : Env)
     (h : r.opts.allowOomCall = false)
     (hem : ∀ n, (env n).emergCheck = false ∨ (env n).succSeen = true) :
-    oomCall ∉ (slowPath r fuel env).trace := by
-  refine run_induct r (fun e => e.emergCheck = false ∨ e.succSeen = true)
+    oomCall ∉ (slowPathOld r fuel env).trace := by
+  refine runOld_induct r (fun e => e.emergCheck = false ∨ e.succSeen = true)
     (fun s => oomCall ∉ s.trace) (fun o => oomCall ∉ o.trace) ?_ ?_ ?_ fuel env State.init hem
     (by simp [State.init])
   · intro s hi; exact hi
   · intro e s res tr he hi hs
-    have hno := allocOnce_disallowed r e h
-    rcases loopBody_ret hs with ⟨_, _, rfl⟩ | ⟨_, _, rfl, _⟩ | ⟨_, _, _, _, _, _, _, h1, h2⟩
+    have hno := allocOnceOld_disallowed r e h
+    rcases loopBodyOld_ret hs with ⟨_, _, rfl⟩ | ⟨_, _, rfl, _⟩ | ⟨_, _, _, _, _, _, _, h1, h2⟩
     · simp [Outcome.trace, hi, hno]
     · simp [Outcome.trace, hi, hno]
     · rcases he with he | he
       · simp [h1] at he
       · simp [h2] at he
   · intro e s s' _ hi hs
-    have hno := allocOnce_disallowed r e h
-    obtain ⟨_, _, _, _, _, rfl⟩ := loopBody_cont hs
+    have hno := allocOnceOld_disallowed r e h
+    obtain ⟨_, _, _, _, _, rfl⟩ := loopBodyOld_cont hs
     simp [hi, hno]
 
-/-- **Clause 2, repaired loop (full).** -/
-theorem fixed_no_oom_call_when_disallowed (r : Req) (fuel : Nat) (env : Env)
-    (h : r.opts.allowOomCall = false) : oomCall ∉ (slowPathFixed r fuel env).trace := by
-  refine runFixed_induct r (fun _ => True)
+/-- **Clause 2, this tree (full).** -/
+theorem no_oom_call_when_disallowed (r : Req) (fuel : Nat) (env : Env)
+    (h : r.opts.allowOomCall = false) : oomCall ∉ (slowPath r fuel env).trace := by
+  refine run_induct r (fun _ => True)
     (fun s => oomCall ∉ s.trace) (fun o => oomCall ∉ o.trace) ?_ ?_ ?_ fuel env State.init
     (fun _ => trivial) (by simp [State.init])
   · intro s hi; exact hi
   · intro e s res tr _ hi hs
-    have hno := allocOnceFixed_disallowed r e h
-    rcases loopBodyFixed_ret hs with ⟨_, _, rfl⟩ | ⟨_, _, rfl, _⟩ | ⟨_, _, rfl, _⟩
+    have hno := allocOnce_disallowed r e h
+    rcases loopBody_ret hs with ⟨_, _, rfl⟩ | ⟨_, _, rfl, _⟩ | ⟨_, _, rfl, _⟩
     · simp [Outcome.trace, hi, hno]
     · simp [Outcome.trace, hi, hno]
     · simp [Outcome.trace, hi, hno, h]
   · intro e s s' _ hi hs
-    have hno := allocOnceFixed_disallowed r e h
-    obtain ⟨_, _, _, _, _, rfl⟩ := loopBodyFixed_cont hs
+    have hno := allocOnce_disallowed r e h
+    obtain ⟨_, _, _, _, _, rfl⟩ := loopBody_cont hs
     simp [hi, hno]
 
 /-! ## Clause 1' — requests larger than the maximum heap fail immediately
 
-Full statement (FALSE on this tree, see `F6_witness_diverges`):
-`∀ r fuel env, r.obvious = true → ∃ tr, slowPath r (fuel+1) env = .done .null tr`. -/
+Full statement (FALSE on the pinned tree, see `F6_witness_diverges`):
+`∀ r fuel env, r.obvious = true → ∃ tr, slowPathOld r (fuel+1) env = .done .null tr`. -/
 
 /-- **Obviously too large (partial).** With `allow_oom_call` or off a safepoint the request
 fails in its first iteration, without any collection, calling `out_of_memory` iff allowed. -/
-theorem obvious_fails_immediately_partial (r : Req) (fuel : Nat) (env : Env) (h : r.obvious = true)
+theorem old_obvious_fails_immediately_partial (r : Req) (fuel : Nat) (env : Env) (h : r.obvious = true)
     (hc : r.opts.allowOomCall = true ∨ r.opts.atSafepoint = false) :
-    slowPath r (fuel + 1) env = .done .null (if r.opts.allowOomCall then [oomCall] else []) := by
-  unfold slowPath run iter
-  rw [allocOnce_of_obvious r _ h]
-  unfold loopBody
+    slowPathOld r (fuel + 1) env = .done .null (if r.opts.allowOomCall then [oomCall] else []) := by
+  unfold slowPathOld runOld iterOld
+  rw [allocOnceOld_of_obvious r _ h]
+  unfold loopBodyOld
   rcases hc with hc | hc
   · cases hs : r.opts.atSafepoint <;> simp [hc, State.init]
   · simp [hc, State.init]
 
-/-- **F6 is real on this tree**, for EVERY environment that does not report an emergency
+/-- **F6 was real on the pinned tree**, for EVERY environment that does not report an emergency
 collection: an obviously-too-large request with `allow_oom_call = false` at a safepoint never
 leaves the loop, never blocks and never calls anything. -/
 theorem F6_diverges (r : Req) (h : r.obvious = true) (hc : r.opts.allowOomCall = false)
     (hs : r.opts.atSafepoint = true) (env : Env) (he : ∀ n, (env n).emergRecord = false) :
-    ∀ fuel, slowPath r fuel env = .outOfFuel [] := by
+    ∀ fuel, slowPathOld r fuel env = .outOfFuel [] := by
   intro fuel
-  refine run_induct r (fun e => e.emergRecord = false)
+  refine runOld_induct r (fun e => e.emergRecord = false)
     (fun s => s = State.init) (fun o => o = .outOfFuel []) ?_ ?_ ?_ fuel env State.init he rfl
   · intro s hi; subst hi; rfl
   · intro e s res tr _ hi hr
     subst hi
-    unfold iter at hr; rw [allocOnce_of_obvious r e h] at hr
-    simp [loopBody, hc, hs, State.init] at hr
+    unfold iterOld at hr; rw [allocOnceOld_of_obvious r e h] at hr
+    simp [loopBodyOld, hc, hs, State.init] at hr
   · intro e s s' hee hi hr
     subst hi
-    unfold iter at hr; rw [allocOnce_of_obvious r e h] at hr
-    simp [loopBody, hc, hs, State.init] at hr
+    unfold iterOld at hr; rw [allocOnceOld_of_obvious r e h] at hr
+    simp [loopBodyOld, hc, hs, State.init] at hr
     rw [← hr, hee]; rfl
 
 /-- The environment of the F6 witness: nothing ever happens (no GC, no emergency). -/
@@ -491,29 +491,56 @@ def reqF6 : Req :=
   { opts := { allowOvercommit := false, atSafepoint := true, allowOomCall := false }, obvious := true }
 
 /-- **F6 witness**: for every fuel the outcome is `outOfFuel` (with an empty trace). -/
-theorem F6_witness_diverges : ∀ fuel, slowPath reqF6 fuel envQuiet = .outOfFuel [] :=
+theorem F6_witness_diverges : ∀ fuel, slowPathOld reqF6 fuel envQuiet = .outOfFuel [] :=
   F6_diverges reqF6 rfl rfl rfl envQuiet (fun _ => rfl)
 
 /-- The negation of "obviously too large requests fail immediately", as a statement. -/
-theorem obvious_fails_immediately_FAILS :
+theorem old_obvious_fails_immediately_FAILS :
     ¬ (∀ (r : Req) (fuel : Nat) (env : Env), r.obvious = true →
-        ∃ tr, slowPath r (fuel + 1) env = .done .null tr) := by
+        ∃ tr, slowPathOld r (fuel + 1) env = .done .null tr) := by
   intro h
   obtain ⟨tr, ht⟩ := h reqF6 0 envQuiet rfl
   rw [F6_witness_diverges] at ht
   cases ht
 
-/-- **Obviously too large, repaired loop (full).** Fails in the first iteration, for all options. -/
-theorem fixed_obvious_fails_immediately (r : Req) (fuel : Nat) (env : Env) (h : r.obvious = true) :
-    slowPathFixed r (fuel + 1) env = .done .null (if r.opts.allowOomCall then [oomCall] else []) := by
-  unfold slowPathFixed runFixed iterFixed
-  rw [allocOnceFixed_of_obvious r _ h]
-  unfold loopBodyFixed
+/-- **Obviously too large, this tree (full).** Fails in the first iteration, for all options. -/
+theorem obvious_fails_immediately (r : Req) (fuel : Nat) (env : Env) (h : r.obvious = true) :
+    slowPath r (fuel + 1) env = .done .null (if r.opts.allowOomCall then [oomCall] else []) := by
+  unfold slowPath run iter
+  rw [allocOnce_of_obvious r _ h]
+  unfold loopBody
   cases hs : r.opts.atSafepoint <;> simp [State.init]
 
 /-! ## Clause 4 — `at_safepoint = false` never blocks (and returns after one attempt) -/
 
 /-- **Clause 4 (full).** -/
+theorem old_no_block_when_not_safepoint (r : Req) (fuel : Nat) (env : Env)
+    (h : r.opts.atSafepoint = false) : blockForGc ∉ (slowPathOld r fuel env).trace := by
+  refine runOld_induct r (fun _ => True) (fun s => blockForGc ∉ s.trace)
+    (fun o => blockForGc ∉ o.trace) ?_ ?_ ?_ fuel env State.init (fun _ => trivial)
+    (by simp [State.init])
+  · intro s hi; exact hi
+  · intro e s res tr _ hi hs
+    have hno := allocOnceOld_noblock r e h
+    rcases loopBodyOld_ret hs with ⟨_, _, rfl⟩ | ⟨_, _, rfl, _⟩ | ⟨_, _, _, hsp, _⟩
+    · simp [Outcome.trace, hi, hno]
+    · simp [Outcome.trace, hi, hno]
+    · simp [h] at hsp
+  · intro e s s' _ hi hs
+    obtain ⟨_, hsp, _⟩ := loopBodyOld_cont hs
+    simp [h] at hsp
+
+/-- Off a safepoint the slow path makes exactly one attempt. -/
+theorem old_not_safepoint_one_attempt (r : Req) (fuel : Nat) (env : Env)
+    (h : r.opts.atSafepoint = false) : (slowPathOld r (fuel + 1) env).isDone = true := by
+  unfold slowPathOld runOld
+  cases hs : iterOld r (env 0) State.init with
+  | ret res tr => rfl
+  | cont s' =>
+    obtain ⟨_, hsp, _⟩ := loopBodyOld_cont hs
+    simp [h] at hsp
+
+/-- **Clause 4, this tree (full).** -/
 theorem no_block_when_not_safepoint (r : Req) (fuel : Nat) (env : Env)
     (h : r.opts.atSafepoint = false) : blockForGc ∉ (slowPath r fuel env).trace := by
   refine run_induct r (fun _ => True) (fun s => blockForGc ∉ s.trace)
@@ -530,7 +557,7 @@ theorem no_block_when_not_safepoint (r : Req) (fuel : Nat) (env : Env)
     obtain ⟨_, hsp, _⟩ := loopBody_cont hs
     simp [h] at hsp
 
-/-- Off a safepoint the slow path makes exactly one attempt. -/
+/-- Off a safepoint the slow path makes exactly one attempt (this tree). -/
 theorem not_safepoint_one_attempt (r : Req) (fuel : Nat) (env : Env)
     (h : r.opts.atSafepoint = false) : (slowPath r (fuel + 1) env).isDone = true := by
   unfold slowPath run
@@ -538,23 +565,6 @@ theorem not_safepoint_one_attempt (r : Req) (fuel : Nat) (env : Env)
   | ret res tr => rfl
   | cont s' =>
     obtain ⟨_, hsp, _⟩ := loopBody_cont hs
-    simp [h] at hsp
-
-/-- **Clause 4, repaired loop (full).** -/
-theorem fixed_no_block_when_not_safepoint (r : Req) (fuel : Nat) (env : Env)
-    (h : r.opts.atSafepoint = false) : blockForGc ∉ (slowPathFixed r fuel env).trace := by
-  refine runFixed_induct r (fun _ => True) (fun s => blockForGc ∉ s.trace)
-    (fun o => blockForGc ∉ o.trace) ?_ ?_ ?_ fuel env State.init (fun _ => trivial)
-    (by simp [State.init])
-  · intro s hi; exact hi
-  · intro e s res tr _ hi hs
-    have hno := allocOnceFixed_noblock r e h
-    rcases loopBodyFixed_ret hs with ⟨_, _, rfl⟩ | ⟨_, _, rfl, _⟩ | ⟨_, _, _, hsp, _⟩
-    · simp [Outcome.trace, hi, hno]
-    · simp [Outcome.trace, hi, hno]
-    · simp [h] at hsp
-  · intro e s s' _ hi hs
-    obtain ⟨_, hsp, _⟩ := loopBodyFixed_cont hs
     simp [h] at hsp
 
 /-! ## Clause 5 — `allow_overcommit` gets pages without blocking
@@ -567,27 +577,27 @@ request larger than the whole heap (`handle_obvious_oom_request` runs before `ac
 Both are explicit hypotheses. -/
 
 /-- **Clause 5 (full, as promised by the code).** -/
+theorem old_overcommit_gets_pages (r : Req) (fuel : Nat) (env : Env)
+    (hc : r.opts.allowOvercommit = true) (ho : r.obvious = false) (hp : (env 0).pagesOk = true) :
+    ∃ tr, slowPathOld r (fuel + 1) env = .done .addr tr ∧ blockForGc ∉ tr ∧ oomCall ∉ tr := by
+  obtain ⟨hok, hnb⟩ := allocOnceOld_overcommit r (env 0) ho hc hp
+  have hno := (allocOnceOld_nonobvious r (env 0) ho).2.1
+  refine ⟨(allocOnceOld r (env 0)).2.2, ?_, hnb, hno⟩
+  unfold slowPathOld runOld iterOld loopBodyOld
+  simp [hok, State.init]
+
+/-- **Clause 5, this tree (full).** -/
 theorem overcommit_gets_pages (r : Req) (fuel : Nat) (env : Env)
     (hc : r.opts.allowOvercommit = true) (ho : r.obvious = false) (hp : (env 0).pagesOk = true) :
     ∃ tr, slowPath r (fuel + 1) env = .done .addr tr ∧ blockForGc ∉ tr ∧ oomCall ∉ tr := by
-  obtain ⟨hok, hnb⟩ := allocOnce_overcommit r (env 0) ho hc hp
-  have hno := (allocOnce_nonobvious r (env 0) ho).2.1
-  refine ⟨(allocOnce r (env 0)).2.2, ?_, hnb, hno⟩
+  obtain ⟨hok, hnb⟩ := allocOnceOld_overcommit r (env 0) ho hc hp
+  have hno := (allocOnceOld_nonobvious r (env 0) ho).2.1
+  refine ⟨(allocOnceOld r (env 0)).2.2, ?_, hnb, hno⟩
   unfold slowPath run iter loopBody
+  rw [allocOnce_of_not_obvious r _ ho]
   simp [hok, State.init]
 
-/-- **Clause 5, repaired loop (full).** -/
-theorem fixed_overcommit_gets_pages (r : Req) (fuel : Nat) (env : Env)
-    (hc : r.opts.allowOvercommit = true) (ho : r.obvious = false) (hp : (env 0).pagesOk = true) :
-    ∃ tr, slowPathFixed r (fuel + 1) env = .done .addr tr ∧ blockForGc ∉ tr ∧ oomCall ∉ tr := by
-  obtain ⟨hok, hnb⟩ := allocOnce_overcommit r (env 0) ho hc hp
-  have hno := (allocOnce_nonobvious r (env 0) ho).2.1
-  refine ⟨(allocOnce r (env 0)).2.2, ?_, hnb, hno⟩
-  unfold slowPathFixed runFixed iterFixed loopBodyFixed
-  rw [allocOnceFixed_of_not_obvious r _ ho]
-  simp [hok, State.init]
-
-/-! ## Termination of the repaired loop
+/-! ## Termination of the loop of the pinned tree
 
 Environment assumption ("every blocking GC returns" is built in: `block_for_gc` is an event, the
 environment always answers; and) **after finitely many GCs either memory is found or the emergency
@@ -598,47 +608,47 @@ the flag at the second consecutive collection without allocation success when th
 was exhaustive and the heap cannot grow.) -/
 
 /-- `alloc_slow_once` succeeds on these answers. -/
-def Succeeds (r : Req) (e : EnvRec) : Prop := (allocOnceFixed r e).1 = true
+def Succeeds (r : Req) (e : EnvRec) : Prop := (allocOnce r e).1 = true
 
 /-- Iteration `n` makes progress. -/
 def Progress (r : Req) (env : Env) (n : Nat) : Prop :=
   Succeeds r (env n) ∨
   ((env n).emergRecord = true ∧ (env (n + 1)).emergCheck = true ∧ (env (n + 1)).succSeen = false)
 
-theorem runFixed_succ (r : Req) (f : Nat) (env : Env) (s : State) :
-    runFixed r (f + 1) env s =
-      match iterFixed r (env 0) s with
+theorem run_succ (r : Req) (f : Nat) (env : Env) (s : State) :
+    run r (f + 1) env s =
+      match iter r (env 0) s with
       | .ret res tr => .done res tr
-      | .cont s' => runFixed r f env.tail s' := rfl
+      | .cont s' => run r f env.tail s' := rfl
 
-theorem runFixed_done_of_progress (r : Req) :
+theorem run_done_of_progress (r : Req) :
     ∀ (d : Nat) (env : Env) (s : State), Progress r env d →
-      ∀ fuel, d + 2 ≤ fuel → (runFixed r fuel env s).isDone = true := by
+      ∀ fuel, d + 2 ≤ fuel → (run r fuel env s).isDone = true := by
   intro d
   induction d with
   | zero =>
     intro env s hp fuel hf
     obtain ⟨f, rfl⟩ : ∃ f, fuel = f + 2 := ⟨fuel - 2, by omega⟩
-    rw [runFixed_succ]
-    cases hs : iterFixed r (env 0) s with
+    rw [run_succ]
+    cases hs : iter r (env 0) s with
     | ret res tr => rfl
     | cont s' =>
-      show (runFixed r (f + 1) env.tail s').isDone = true
-      rw [runFixed_succ]
-      obtain ⟨ha, _, _, _, _, hs'⟩ := loopBodyFixed_cont hs
+      show (run r (f + 1) env.tail s').isDone = true
+      rw [run_succ]
+      obtain ⟨ha, _, _, _, _, hs'⟩ := loopBody_cont hs
       rcases hp with hp | ⟨h1, h2, h3⟩
       · simp [Succeeds, ha] at hp
-      · cases hs2 : iterFixed r (env.tail 0) s' with
+      · cases hs2 : iter r (env.tail 0) s' with
         | ret res tr => rfl
         | cont s'' =>
-          obtain ⟨_, _, _, _, hne, _⟩ := loopBodyFixed_cont hs2
+          obtain ⟨_, _, _, _, hne, _⟩ := loopBody_cont hs2
           refine absurd ⟨?_, h2, h3⟩ hne
           rw [hs']; exact h1
   | succ d ih =>
     intro env s hp fuel hf
     obtain ⟨f, rfl⟩ : ∃ f, fuel = f + 1 := ⟨fuel - 1, by omega⟩
-    rw [runFixed_succ]
-    cases hs : iterFixed r (env 0) s with
+    rw [run_succ]
+    cases hs : iter r (env 0) s with
     | ret res tr => rfl
     | cont s' =>
       refine ih env.tail s' ?_ f (by omega)
@@ -646,30 +656,30 @@ theorem runFixed_done_of_progress (r : Req) :
       · exact .inl hp
       · exact .inr hp
 
-/-- **Termination of the repaired loop** under the GC-progress assumption: with progress at
+/-- **Termination of the loop of the pinned tree** under the GC-progress assumption: with progress at
 iteration `n` the request returns within `n + 2` iterations. -/
-theorem fixed_terminates (r : Req) (env : Env) (n : Nat) (hp : Progress r env n) :
-    ∀ fuel, n + 2 ≤ fuel → (slowPathFixed r fuel env).isDone = true :=
-  fun fuel hf => runFixed_done_of_progress r n env State.init hp fuel hf
+theorem terminates (r : Req) (env : Env) (n : Nat) (hp : Progress r env n) :
+    ∀ fuel, n + 2 ≤ fuel → (slowPath r fuel env).isDone = true :=
+  fun fuel hf => run_done_of_progress r n env State.init hp fuel hf
 
-/-- The same assumption does NOT make the loop on this tree terminate: in `F6_witness_diverges`
+/-- The same assumption does NOT make the loop of the pinned tree terminate: in `F6_witness_diverges`
 no progress is possible (the request is obviously too large), and with an emergency collection
-reported the loop on this tree leaves only by calling `out_of_memory` against the option. -/
-theorem fixed_terminates_obvious (r : Req) (env : Env) (h : r.obvious = true) :
-    ∀ fuel, 1 ≤ fuel → (slowPathFixed r fuel env).isDone = true := by
+reported the loop of the pinned tree leaves only by calling `out_of_memory` against the option. -/
+theorem terminates_obvious (r : Req) (env : Env) (h : r.obvious = true) :
+    ∀ fuel, 1 ≤ fuel → (slowPath r fuel env).isDone = true := by
   intro fuel hf
   obtain ⟨f, rfl⟩ : ∃ f, fuel = f + 1 := ⟨fuel - 1, by omega⟩
-  rw [fixed_obvious_fails_immediately r f env h]; rfl
+  rw [obvious_fails_immediately r f env h]; rfl
 
 /-! ## The hypotheses are satisfiable; concrete runs -/
 
 /-- Default options, heap full: two GCs (the second an emergency collection), then
 `out_of_memory` and null — clause 1 is not vacuous. -/
-example : slowPath { opts := Opts.default, obvious := false } 5 envF5
+example : slowPathOld { opts := Opts.default, obvious := false } 5 envF5
     = .done .null [gcRequested, blockForGc, gcRequested, blockForGc, oomCall] := by decide
 
 /-- Default options, a GC frees memory: blocked once, then pages are granted. -/
-example : slowPath { opts := Opts.default, obvious := false } 5
+example : slowPathOld { opts := Opts.default, obvious := false } 5
     (Env.ofList [{ localHit := false, pollGc := true, pagesOk := true, emergCheck := false,
                    succSeen := true, emergRecord := false }]
       { localHit := false, pollGc := false, pagesOk := true, emergCheck := false, succSeen := true,
@@ -677,42 +687,38 @@ example : slowPath { opts := Opts.default, obvious := false } 5
     = .done .addr [gcRequested, blockForGc, pagesGranted] := by decide
 
 /-- Overcommit does not help when the page resource itself fails: forced GC, blocking, OOM. -/
-example : slowPath { opts := { allowOvercommit := true, atSafepoint := true, allowOomCall := true },
-                     obvious := false } 2 envF5
+example : slowPathOld { opts := { allowOvercommit := true, atSafepoint := true, allowOomCall := true }, obvious := false } 2 envF5
     = .done .null [gcRequested, forcedGc, blockForGc, gcRequested, forcedGc, blockForGc, oomCall] := by
   decide
 
 /-- Overcommit: `poll` asks for a GC, pages are taken anyway, no blocking. -/
-example : slowPath { opts := { allowOvercommit := true, atSafepoint := false, allowOomCall := false },
-                     obvious := false } 1
+example : slowPathOld { opts := { allowOvercommit := true, atSafepoint := false, allowOomCall := false }, obvious := false } 1
     (fun _ => { localHit := false, pollGc := true, pagesOk := true, emergCheck := true,
                 succSeen := false, emergRecord := true })
     = .done .addr [gcRequested, pagesGranted] := by decide
 
 /-- Off a safepoint, heap full: null, `poll` requested a GC, nobody blocked. -/
-example : slowPath { opts := { allowOvercommit := false, atSafepoint := false, allowOomCall := true },
-                     obvious := false } 3 envF5 = .done .null [gcRequested] := by decide
+example : slowPathOld { opts := { allowOvercommit := false, atSafepoint := false, allowOomCall := true }, obvious := false } 3 envF5 = .done .null [gcRequested] := by decide
 
 /-- Obviously too large with default options: `out_of_memory`, null, no GC. -/
-example : slowPath { opts := Opts.default, obvious := true } 1 envQuiet = .done .null [oomCall] := by
+example : slowPathOld { opts := Opts.default, obvious := true } 1 envQuiet = .done .null [oomCall] := by
   decide
 
-/-- The repaired loop on the two witnesses. -/
-example : slowPathFixed reqF6 1 envQuiet = .done .null [] := by decide
-example : slowPathFixed { opts := { allowOvercommit := false, atSafepoint := true, allowOomCall := false },
-                          obvious := false } 2 envF5
+/-- The loop of this tree on the two witnesses. -/
+example : slowPath reqF6 1 envQuiet = .done .null [] := by decide
+example : slowPath { opts := { allowOvercommit := false, atSafepoint := true, allowOomCall := false }, obvious := false } 2 envF5
     = .done .null [gcRequested, blockForGc, gcRequested, blockForGc] := by decide
 
 /-- `Progress` is satisfiable by the F5 environment (emergency flag raised at iteration 0). -/
 example : Progress reqF6 envF5 0 := .inr ⟨rfl, rfl, rfl⟩
 
-/-- The hypothesis of `no_oom_call_when_disallowed_partial` is satisfiable by an environment in
-which GCs do happen (and the run then blocks forever: the GC-progress assumption fails). -/
+/-- The hypothesis of `old_no_oom_call_when_disallowed_partial` is satisfiable by an environment in
+which GCs do happen (and the runOld then blocks forever: the GC-progress assumption fails). -/
 def envNoFail : Env := fun _ =>
   { localHit := false, pollGc := true, pagesOk := false, emergCheck := true, succSeen := true,
     emergRecord := true }
 example : ∀ n, (envNoFail n).emergCheck = false ∨ (envNoFail n).succSeen = true := fun _ => .inr rfl
-example : slowPath reqF5 2 envNoFail = .outOfFuel [gcRequested, blockForGc, gcRequested, blockForGc] := by
+example : slowPathOld reqF5 2 envNoFail = .outOfFuel [gcRequested, blockForGc, gcRequested, blockForGc] := by
   decide
 
 end Mmtk.OOM
